@@ -402,7 +402,15 @@ fn header_value(r: &mut Rng, field: &str, class: usize) -> Value {
         "x5t" | "x5t_s256" => &["dGh1bWJwcmludA", "dGh1bWJwcmludA==", "DGH1BWJWCMLUDA", "-_-_"],
         _ => &["exp", "b64", "http://example.invalid/UNDEFINED", "EXP"],
     };
+    // certificate chain entries are standard base64 of DER: a SEQUENCE (0x30 0x82 len len ...), "MII..." in text
+    let der_like = || {
+        use base64::Engine;
+        let mut der = vec![0x30u8, 0x82, 0x01, 0x0a, 0x02, 0x82, 0x01, 0x01, 0x00];
+        der.extend((0..(3 + (field.len() % 3))).map(|i| (i * 37 + 11) as u8));
+        base64::engine::general_purpose::STANDARD.encode(der)
+    };
     let s = match class {
+        5 | 6 if field == "x5c" => der_like(),
         5 | 6 => realistic[r.below(realistic.len())].to_string(),
         0 => format!("{}-value", field),
         1 => String::new(),
@@ -442,11 +450,15 @@ pub fn generate_c16(thorough: bool, seed: u64, em: &mut Emitter) {
         h.typ = None;
         let mut expect = serde_json::Map::new();
         expect.insert("alg".into(), json!(alg));
-        let class = r.below(7);
+        let shared_class = r.below(7);
+        let per_field = r.chance(1, 2);
         for (i, f) in H_FIELDS.iter().enumerate() {
             if subset & (1 << i) == 0 {
                 continue;
             }
+            // one value class for the whole header, or an independent one per field (members derived from,
+            // or normalised by looking at, another member need realistic values next to each other)
+            let class = if per_field { r.below(7) } else { shared_class };
             let v = header_value(&mut r, f, class);
             expect.insert(f.to_string(), v.clone());
             let s = v.as_str().map(|x| x.to_string());
